@@ -198,6 +198,44 @@ func schedCmd(args []string) error {
 	}
 	close(jobs)
 	wg.Wait()
+	// a program text fed to one interpreter in two or three Execute calls, split at line ends (where a
+	// token also ends; never in front of a %%+ continuation line, which belongs to the line before)
+	for _, in := range inputs[:nAccepted] {
+		if in.Entry != "execute" || bytes.Contains(in.Data, []byte("eexec")) {
+			continue
+		}
+		base := corpus.Run(in.Entry, bytes.NewReader(in.Data))
+		var cuts []int
+		for i, c := range in.Data {
+			if c == '\n' && i+1 < len(in.Data) && !bytes.HasPrefix(in.Data[i+1:], []byte("%%+")) {
+				cuts = append(cuts, i+1)
+			}
+		}
+		try := func(parts [][]byte, desc string) {
+			res := corpus.RunExecuteCalls(parts)
+			sum.Vectors++
+			sum.PerOp["execute/calls split at line ends"]++
+			if res == base {
+				sum.Agreed++
+				return
+			}
+			sig := "delivery: execute result differs when the text is fed in several calls split at line ends"
+			sum.NDisagree++
+			sum.BySig[sig]++
+			if sum.BySig[sig] <= 2 {
+				sum.Disagreements = append(sum.Disagreements, disagreement{Sig: sig, What: "feeding a program in consecutive Execute calls differs from feeding the concatenation",
+					Stimulus: fmt.Sprintf("input %s, calls end at byte offsets %s", in.Name, desc), Expected: base.Digest[:min(300, len(base.Digest))] + " err=" + base.Err,
+					Observed: res.Digest[:min(300, len(res.Digest))] + " err=" + res.Err + res.Panic})
+			}
+		}
+		for i, a := range cuts {
+			try([][]byte{in.Data[:a], in.Data[a:]}, fmt.Sprint(a))
+			if i+2 < len(cuts) {
+				b := cuts[i+2]
+				try([][]byte{in.Data[:a], in.Data[a:b], in.Data[b:]}, fmt.Sprint(a, " ", b))
+			}
+		}
+	}
 	sum.Distinct = sum.Vectors
 	return emit(sum)
 }
